@@ -60,6 +60,11 @@ CHECKS["C01"] = dict(engine="wire", technique="property-based adversary generati
    note="Crypto primitives trusted. Outbound Established(Outgoing) before the responder proved itself is protocol design and not asserted (scope note in DESIGN.md).",
    ref="7.0 / C01")
 
+CHECKS["C03"] = dict(engine="wire", technique="stateful property-based testing with replay injection and a ledger of emitted challenges (real handlers, virtual wire, paused clock)",
+   text="Exploration: generated honest exchanges with restarts plus re-injection of any logged datagram at any later point and from any source address, and forged WHOAREYOUs with in-flight / stale / foreign / random nonces; an independent ledger of every WHOAREYOU a node emitted decides whether an observed session creation / re-keying / Established report was backed by an unconsumed, unexpired challenge to exactly that (id, address); handshake emissions must be backed by a WHOAREYOU echoing an in-flight nonce from that address, at most one distinct handshake per request.",
+   note="Rejected handshakes are treated as possibly re-arming the challenge (lenient). Session changes are observed through the guarded probe.",
+   ref="7.0 / C03")
+
 NOT_YET = {}
 
 def main():
